@@ -259,7 +259,11 @@ impl $(< $( $generic ),+ >)? $yaml $(where $($whereclause)+)? {
                     false
                 }
             }
-            _ => true,
+            other => {
+                // Not a representation: put the node we took out back in place.
+                *self = other;
+                true
+            }
         }
     }
 
@@ -282,12 +286,16 @@ impl $(< $( $generic ),+ >)? $yaml $(where $($whereclause)+)? {
                 *self = zelf;
                 succeeded
             }
-            Self::Sequence(mut vec) => vec
-                .iter_mut()
-                .map(|v| v.parse_representation_recursive())
-                // Using `all` here would short-circuit. We need a `fold` to continue parsing
-                // further nodes even if parsing one fails.
-                .fold(true, |a, b| a && b),
+            Self::Sequence(mut vec) => {
+                let succeeded = vec
+                    .iter_mut()
+                    .map(|v| v.parse_representation_recursive())
+                    // Using `all` here would short-circuit. We need a `fold` to continue parsing
+                    // further nodes even if parsing one fails.
+                    .fold(true, |a, b| a && b);
+                *self = Self::Sequence(vec);
+                succeeded
+            }
             Self::Mapping(mut map) => {
                 let mut succeeded = true;
                 // Keys are immutable. We cannot just do `map.iter_mut().map(...)`. We need to
@@ -313,7 +321,11 @@ impl $(< $( $generic ),+ >)? $yaml $(where $($whereclause)+)? {
                 *self = Self::Mapping(map);
                 succeeded
             }
-            _ => true,
+            other => {
+                // Values, aliases and bad values are left untouched: put the node back.
+                *self = other;
+                true
+            }
         }
     }
 
